@@ -30,8 +30,9 @@ VARIABLES md,        \* messages (complete files) in the maildir
           ino,       \* ino[i] = [data |-> tokens, dur |-> length that survives a crash]
           mboxi, tmpi,   \* inode of $MAIL and of $MAILTMP (0: no such name)
           wr,        \* inode the program writes to
-          pc, scanned, k, base, faults, failedul, exit, runs, everin
-vars == <<md, ino, mboxi, tmpi, wr, pc, scanned, k, base, faults, failedul, exit, runs, everin>>
+          pc, scanned, k, base, faults, failedul, exit, runs, everin,
+          wopen, wdone   \* Mut = "writer" only: the inode a delivering qmail-local has opened and locked-or-waits-for, and whether it has reported success
+vars == <<md, ino, mboxi, tmpi, wr, pc, scanned, k, base, faults, failedul, exit, runs, everin, wopen, wdone>>
 
 SortedSeq(S) == SetToSortSeq(S, LAMBDA a, b : a < b)
 Mbox == ino[mboxi].data
@@ -42,6 +43,7 @@ Init == /\ md = Msgs /\ everin = Msgs
         /\ mboxi = 1 /\ tmpi = 0 /\ wr = 0
         /\ pc = "scan" /\ scanned = <<>> /\ k = 1 /\ base = <<0>>
         /\ faults = 0 /\ failedul = {} /\ exit = "none" /\ runs = 1
+        /\ wopen = 0 /\ wdone = FALSE
 
 Die(code) == pc' = "dead" /\ exit' = code
 CanFail == faults < MaxFaults
@@ -53,15 +55,15 @@ Scan == /\ pc = "scan"
              /\ scanned' = SortedSeq(S)
              /\ IF S = {} THEN Die("0") ELSE pc' = "lock" /\ exit' = exit
         /\ base' = Mbox /\ k' = 1 /\ failedul' = {}
-        /\ UNCHANGED <<md, ino, mboxi, tmpi, wr, faults, runs, everin>>
+        /\ UNCHANGED <<md, ino, mboxi, tmpi, wr, faults, runs, everin, wopen, wdone>>
 Lock == /\ pc = "lock"          \* open_append + lock_ex
         /\ \/ pc' = "openold" /\ UNCHANGED <<faults, exit>>
            \/ Fail
-        /\ UNCHANGED <<md, ino, mboxi, tmpi, wr, scanned, k, base, failedul, runs, everin>>
+        /\ UNCHANGED <<md, ino, mboxi, tmpi, wr, scanned, k, base, failedul, runs, everin, wopen, wdone>>
 OpenOld == /\ pc = "openold"
            /\ \/ pc' = "trunc" /\ UNCHANGED <<faults, exit>>
               \/ Fail
-           /\ UNCHANGED <<md, ino, mboxi, tmpi, wr, scanned, k, base, failedul, runs, everin>>
+           /\ UNCHANGED <<md, ino, mboxi, tmpi, wr, scanned, k, base, failedul, runs, everin, wopen, wdone>>
 Trunc == /\ pc = "trunc"        \* open_trunc($MAILTMP)
          /\ \/ /\ Mut # "inplace"
                /\ IF tmpi = 0 THEN ino' = Append(ino, [data |-> <<>>, dur |-> 0]) /\ tmpi' = Len(ino) + 1 /\ wr' = Len(ino) + 1
@@ -70,33 +72,33 @@ Trunc == /\ pc = "trunc"        \* open_trunc($MAILTMP)
             \/ /\ Mut = "inplace"      \* wrong: append to the mbox itself
                /\ wr' = mboxi /\ pc' = "entry" /\ UNCHANGED <<ino, tmpi, faults, exit>>
             \/ Fail /\ UNCHANGED <<ino, tmpi, wr>>
-         /\ UNCHANGED <<md, mboxi, scanned, k, base, failedul, runs, everin>>
+         /\ UNCHANGED <<md, mboxi, scanned, k, base, failedul, runs, everin, wopen, wdone>>
 Copy == /\ pc = "copy"          \* substdio_copy: the old contents; a failing write leaves part of them in the temporary file
         /\ \/ ino' = [ino EXCEPT ![wr].data = Mbox] /\ pc' = "entry" /\ UNCHANGED <<faults, exit>>
            \/ Fail /\ UNCHANGED ino
-        /\ UNCHANGED <<md, mboxi, tmpi, wr, scanned, k, base, failedul, runs, everin>>
+        /\ UNCHANGED <<md, mboxi, tmpi, wr, scanned, k, base, failedul, runs, everin, wopen, wdone>>
 Entry == /\ pc = "entry"
          /\ IF k > Len(scanned) THEN pc' = "fsync" /\ k' = 1 /\ UNCHANGED <<ino, faults, exit>>
             ELSE \/ ino' = [ino EXCEPT ![wr].data = Append(@, scanned[k])] /\ k' = k + 1 /\ UNCHANGED <<pc, faults, exit>>
                  \/ /\ Mut # "ignorewrite" /\ Fail /\ UNCHANGED <<ino, k>>
                  \/ /\ Mut = "ignorewrite" /\ CanFail /\ faults' = faults + 1       \* wrong: the result of a write is not looked at
                     /\ k' = k + 1 /\ UNCHANGED <<ino, pc, exit>>
-         /\ UNCHANGED <<md, mboxi, tmpi, wr, scanned, base, failedul, runs, everin>>
+         /\ UNCHANGED <<md, mboxi, tmpi, wr, scanned, base, failedul, runs, everin, wopen, wdone>>
 Fsync == /\ pc = "fsync"
          /\ \/ /\ ino' = IF Mut = "nofsync" THEN ino ELSE [ino EXCEPT ![wr].dur = Len(ino[wr].data)]
                /\ pc' = "close" /\ UNCHANGED <<faults, exit>>
             \/ Fail /\ UNCHANGED ino
-         /\ UNCHANGED <<md, mboxi, tmpi, wr, scanned, k, base, failedul, runs, everin>>
+         /\ UNCHANGED <<md, mboxi, tmpi, wr, scanned, k, base, failedul, runs, everin, wopen, wdone>>
 Close == /\ pc = "close"
          /\ \/ pc' = (IF Mut = "unlinkfirst" THEN "unlink" ELSE IF Mut = "inplace" THEN "unlink" ELSE "rename") /\ UNCHANGED <<faults, exit>>
             \/ Fail
-         /\ UNCHANGED <<md, ino, mboxi, tmpi, wr, scanned, k, base, failedul, runs, everin>>
+         /\ UNCHANGED <<md, ino, mboxi, tmpi, wr, scanned, k, base, failedul, runs, everin, wopen, wdone>>
 Rename == /\ pc = "rename"
           /\ \/ /\ mboxi' = tmpi /\ tmpi' = 0
                 /\ IF Mut = "unlinkfirst" THEN Die("0") /\ UNCHANGED <<k, faults>>
                    ELSE pc' = "unlink" /\ k' = 1 /\ UNCHANGED <<faults, exit>>
              \/ Fail /\ UNCHANGED <<mboxi, tmpi, k>>
-          /\ UNCHANGED <<md, ino, wr, scanned, base, failedul, runs, everin>>
+          /\ UNCHANGED <<md, ino, wr, scanned, base, failedul, runs, everin, wopen, wdone>>
 Unlink == /\ pc = "unlink"
           /\ IF k > Len(scanned)
              THEN /\ IF Mut = "unlinkfirst" THEN pc' = "rename" /\ exit' = exit ELSE Die("0")
@@ -104,24 +106,34 @@ Unlink == /\ pc = "unlink"
              ELSE \/ md' = md \ {scanned[k]} /\ k' = k + 1 /\ UNCHANGED <<pc, exit, faults, failedul>>
                   \/ /\ CanFail /\ faults' = faults + 1           \* "will be delivered twice; unable to unlink": a warning
                      /\ failedul' = failedul \cup {scanned[k]} /\ k' = k + 1 /\ UNCHANGED <<md, pc, exit>>
-          /\ UNCHANGED <<ino, mboxi, tmpi, wr, scanned, base, runs, everin>>
+          /\ UNCHANGED <<ino, mboxi, tmpi, wr, scanned, base, runs, everin, wopen, wdone>>
 
 Kill == /\ pc # "dead" /\ Die("killed")
-        /\ UNCHANGED <<md, ino, mboxi, tmpi, wr, scanned, k, base, faults, failedul, runs, everin>>
+        /\ UNCHANGED <<md, ino, mboxi, tmpi, wr, scanned, k, base, faults, failedul, runs, everin, wopen, wdone>>
 Crash == /\ exit # "crashed"
          /\ \E c \in [1..Len(ino) -> 0..(Cardinality(Msgs \cup Late) * MaxRuns + 1)] :
               /\ \A i \in 1..Len(ino) : c[i] >= ino[i].dur /\ c[i] <= Len(ino[i].data)
               /\ ino' = [i \in 1..Len(ino) |-> [data |-> SubSeq(ino[i].data, 1, c[i]), dur |-> c[i]]]
          /\ Die("crashed")
-         /\ UNCHANGED <<md, mboxi, tmpi, wr, scanned, k, base, faults, failedul, runs, everin>>
+         /\ UNCHANGED <<md, mboxi, tmpi, wr, scanned, k, base, faults, failedul, runs, everin, wopen, wdone>>
 Restart == /\ pc = "dead" /\ runs < MaxRuns
            /\ runs' = runs + 1 /\ pc' = "scan" /\ exit' = "none"
-           /\ UNCHANGED <<md, ino, mboxi, tmpi, wr, scanned, k, base, faults, failedul, everin>>
+           /\ UNCHANGED <<md, ino, mboxi, tmpi, wr, scanned, k, base, faults, failedul, everin, wopen, wdone>>
 Deliver == \E m \in Late \ everin :
              /\ md' = md \cup {m} /\ everin' = everin \cup {m}
-             /\ UNCHANGED <<ino, mboxi, tmpi, wr, pc, scanned, k, base, faults, failedul, exit, runs>>
+             /\ UNCHANGED <<ino, mboxi, tmpi, wr, pc, scanned, k, base, faults, failedul, exit, runs, wopen, wdone>>
 
-Next == Scan \/ Lock \/ OpenOld \/ Trunc \/ Copy \/ Entry \/ Fsync \/ Close \/ Rename \/ Unlink \/ Kill \/ Crash \/ Restart \/ Deliver
+\* Mut = "writer" (a limit of the design, not of the code; the manual only promises protection "against simultaneous access by a
+\* mail reader"): a delivering qmail-local opens the mbox, waits for the lock maildir2mbox holds on that inode, and appends when
+\* maildir2mbox is gone - to the inode it opened, which $MAIL no longer names.  WriterKeeps must fail for this variant.
+WOpen == /\ Mut = "writer" /\ wopen = 0 /\ ~wdone /\ wopen' = mboxi
+         /\ UNCHANGED <<md, ino, mboxi, tmpi, wr, pc, scanned, k, base, faults, failedul, exit, runs, everin, wdone>>
+WAppend == /\ Mut = "writer" /\ wopen # 0 /\ ~wdone
+           /\ (pc \in {"scan", "lock", "dead"})                \* the lock on that inode is free
+           /\ ino' = [ino EXCEPT ![wopen] = [data |-> Append(@.data, 99), dur |-> Len(@.data) + 1]]
+           /\ wdone' = TRUE
+           /\ UNCHANGED <<md, mboxi, tmpi, wr, pc, scanned, k, base, faults, failedul, exit, runs, everin, wopen>>
+Next == WOpen \/ WAppend \/ Scan \/ Lock \/ OpenOld \/ Trunc \/ Copy \/ Entry \/ Fsync \/ Close \/ Rename \/ Unlink \/ Kill \/ Crash \/ Restart \/ Deliver
 Spec == Init /\ [][Next]_vars
 
 NoLoss       == \A m \in everin : m \in md \/ InMbox(m)
@@ -130,6 +142,8 @@ AllOrNothing == Mbox = base \/ Mbox = base \o scanned
 ExitOk       == exit = "0" => /\ Mbox = base \o scanned
                               /\ \A i \in 1..Len(scanned) : scanned[i] \in md => scanned[i] \in failedul
 ExitFail     == exit = "111" => Mbox = base /\ \A i \in 1..Len(scanned) : scanned[i] \in md
+\* what a delivery that reported success put into the mbox stays there (fails for Mut = "writer": see WOpen)
+WriterKeeps == wdone /\ exit # "crashed" => InMbox(99)
 \* coverage (must be violated): a second run completes after a crash that followed the rename of the first
 SecondRunNeverCompletes == ~(runs = 2 /\ exit = "0" /\ Len(Mbox) > Cardinality(everin) + 1)
 =============================================================================
